@@ -68,7 +68,7 @@ REQUIRED = dict(
               'binned=binner(stored-native)', 'binned-tau=binner(tau)', 'tau-presence',
               'model-written', 'model-reloaded', 'reload-classes', 'reload-parameter-names', 'reload-parameters',
               'reload-spectrum', 'reload-spectrum-original-order', 'reload-leaves-file-untouched'],
-    classes=['same-binner:same-size-and-ends', 'same-binner:other-size', 'leaf:float', 'leaf:int', 'leaf:npfloat', 'leaf:npint', 'leaf:bool', 'leaf:array', 'leaf:string',
+    classes=['same-binner:dozens-of-results-earlier-ones-again', 'same-binner:same-size-and-ends', 'same-binner:other-size', 'leaf:float', 'leaf:int', 'leaf:npfloat', 'leaf:npint', 'leaf:bool', 'leaf:array', 'leaf:string',
              'leaf:numlist', 'leaf:numtuple', 'leaf:nestlist', 'leaf:strlist', 'leaf:strtuple', 'leaf:dictlist',
              'leaf:raggedlist', 'strlist-element-outside-S64-ascii',
              'array-rank:0', 'array-rank:1', 'array-rank:2', 'array-rank:3', 'depth:4', 'append',
@@ -495,10 +495,10 @@ def wl_api(ctx, rng):
 SIZES = ['heavy', 'light', 'lighter']
 
 
-def make_binner(rng, native_wn):
+def make_binner(rng, native_wn, kind=None):
     """(binner, name, declared (centre, width) pairs or None)."""
     from taurex.binning import FluxBinner, SimpleBinner, NativeBinner
-    kind = ['FluxBinner', 'SimpleBinner', 'NativeBinner'][rng.choice(3, p=[0.2, 0.45, 0.35])]
+    kind = kind or ['FluxBinner', 'SimpleBinner', 'NativeBinner'][rng.choice(3, p=[0.2, 0.45, 0.35])]
     lo, hi = float(np.min(native_wn)), float(np.max(native_wn))
     if kind == 'NativeBinner':
         return NativeBinner(), kind, None
@@ -611,7 +611,28 @@ def wl_synth_spectra(ctx, rng):
     flux = 10 ** rng.uniform(-6, -1, n)
     tau = np.exp(-10 ** rng.uniform(-3, 2, (nl, n)))
     result = (wn, flux, tau, None)
-    kind, size, bt = store_and_judge_spectrum(ctx, rng, result, 'synthetic', want_binner=True)
+    long = ctx.case['index'] % 30 == 13
+    kind, size, bt = store_and_judge_spectrum(ctx, rng, result, 'synthetic', want_binner=True,
+                                              binner_t=make_binner(rng, wn, ['FluxBinner', 'SimpleBinner'][rng.integers(0, 2)]) if long else None)
+    if long:
+        # a long history on ONE binner (one binner writing the outputs of a whole campaign): dozens of results on different
+        # native grids, earlier results written again in between and at the end; every stored group is judged like the first
+        results = [result]
+        nres = int(rng.integers(22, 36)) if ctx.tier == 'quick' else int(rng.integers(50, 150))
+        for j in range(nres):
+            n2 = int(rng.integers(4, 120))
+            wn2 = np.sort(rng.uniform(wn[0], wn[-1], n2))
+            wn2[0], wn2[-1] = wn[0], wn[-1]
+            if not np.all(np.diff(wn2) > 0):
+                continue
+            results.append((wn2, 10 ** rng.uniform(-6, -1, n2), np.exp(-10 ** rng.uniform(-3, 2, (nl, n2))), None))
+            store_and_judge_spectrum(ctx, rng, results[-1], 'synthetic-same-binner-long', binner_t=bt)
+            if j % 3 == 2:
+                store_and_judge_spectrum(ctx, rng, results[int(rng.integers(0, max(len(results) // 2, 1)))],
+                                         'synthetic-same-binner-long', binner_t=bt)
+        for k_ in rng.integers(0, max(len(results) // 2, 1), 5):
+            store_and_judge_spectrum(ctx, rng, results[int(k_)], 'synthetic-same-binner-long', binner_t=bt)
+        ctx.observe('same-binner:dozens-of-results-earlier-ones-again')
     # the SAME binner object writes the output of further model results (the program does this once per contribution
     # and a script once per model): native grids of the same size and end points but other interior points, then
     # other sizes -- every stored group is judged like the first
